@@ -107,7 +107,8 @@ class ScalingOperator(EndomorphicOperator):
 
     def draw_sample(self, from_inverse=False, device_id=-1):
         from ..sugar import from_random
-        if self._dtype is None:
+        if self._dtype is None or (isinstance(self._dtype, dict)
+                                   and any(v is None for v in self._dtype.values())):
             s = "Need to specify dtype to be able to sample from this operator:\n"
             s += self.__repr__()
             raise RuntimeError(s)
